@@ -101,6 +101,15 @@ NAME_SETS = [["sim_SIZE.10", "sim_SIZE.20", "sim_SIZE.30"], ["sim_SIZE.10", "sim
              ["BUILD", "BIN"], ["BIN", "BUILD"]]
 NAME_SETS_OPTIONAL = [["BUILD", "BIN", "TOOL"], ["TOOL", "BIN", "BUILD"], ["BIN", "TOOL"], ["PREFIX", "LIB"],
                       ["LIB", "CFG"], ["PREFIX", "LIB", "CFG"], ["B_DIR", "C_DIR"], ["A_DIR", "B_DIR", "C_DIR"]]
+# --pargs lists of the real-CLI mode: repeated keys with different values (the LATER one wins),
+# several keys, values containing ':' and ','; the first two must be iterated -- as sets -- in
+# different orders among the chosen hash seeds
+PARG_LISTS = [["COUNT:2", "COUNT:3"], ["COUNT:2", "STEP:5", "COUNT:3"],
+              ["COUNT:3", "STEP:10", "STEP:20", "COUNT:3"], ["TAG:a:b", "TAG:c,d", "COUNT:2"],
+              ["LIST:1,2,3", "LIST:4,5", "TAG:x:y"], ["COUNT:1", "STEP:7", "COUNT:4", "STEP:3", "TAG:t"]]
+# output roots of the real-CLI runs (below the scratch directory): whatever the file system allows
+CLI_ROOTS = ["plain", "bl ank dir", "par(en)s", "amp&semi;colon", "dol$lar$HOME", "qu'ote", 'dq"uote x',
+             "star*q?[a]", "back\\slash`tick`"]
 ENV_NAMES = ["ROOT", "BUILD", "BIN", "TOOL", "EXE"]
 ENV_NAMES2 = ["BASE", "PREFIX", "LIB", "CFG", "RUNNER"]
 # the StudyStep run keys handed to get_parallelize_command as **kwargs (nodes/procs
@@ -434,7 +443,7 @@ def worker_main(inp, outp):
 # ----------------------------------------------------------------------------
 PROBE = """
 import json, sys
-ties, keysets, res, namesets = json.loads(sys.argv[1])
+ties, keysets, res, namesets, setlists = json.loads(sys.argv[1])
 out = []
 for a, b in ties:
     s = set(); s.add(a); s.add(b)
@@ -449,6 +458,8 @@ for ns in namesets:         # ExecutionGraph.in_progress: a set filled by add() 
     for x in ns:
         s.add(x)
     out.append(" ".join(str(ns.index(x)) for x in s))
+for ls in setlists:         # maestro.run_study: what iterating set(args.pargs) would give
+    out.append(" ".join(str(ls.index(x)) for x in set(ls)))
 print(json.dumps(out))
 """
 
@@ -464,6 +475,8 @@ def probe_items():
         items.append(("set{%s}" % ",".join(ns), True))
     for ns in NAME_SETS_OPTIONAL:
         items.append(("set{%s}" % ",".join(ns), False))
+    for k, ls in enumerate(PARG_LISTS):
+        items.append(("set(%s)" % " ".join(ls), k < 2))
     return items
 
 
@@ -474,7 +487,7 @@ def pick_seeds(n):
     both orders (for every key-set variant if possible); beyond that as many
     tie pairs / resource-key pairs as possible are ordered both ways."""
     import itertools
-    arg = json.dumps([TIE_PAIRS, KEYSETS, RES_KEYS, NAME_SETS + NAME_SETS_OPTIONAL])
+    arg = json.dumps([TIE_PAIRS, KEYSETS, RES_KEYS, NAME_SETS + NAME_SETS_OPTIONAL, PARG_LISTS])
     items = probe_items()
 
     def probe(seed):
@@ -853,14 +866,169 @@ def gen_long(rng, adapter=None, target=None):
             "adapter": adapter or rng.choice(["slurm", "slurm", "lsf", "flux"])}
 
 
+# ----------------------------------------------------------------------------
+# the real-CLI mode: real `maestro run -fg -y` child processes (harness/e2e_launcher.py only
+# stubs time.sleep) under different PYTHONHASHSEED values and different output roots,
+# observed from the outside
+# ----------------------------------------------------------------------------
+PGEN_TEXT = """from maestrowf.datastructures.core import ParameterGenerator
+
+
+def get_custom_generator(env, **kwargs):
+    count = int(kwargs.get("COUNT", "1"))
+    step = int(kwargs.get("STEP", "10"))
+    vals = [step * (i + 1) for i in range(count)]
+    if kwargs.get("LIST"):
+        vals = kwargs["LIST"].split(",")
+    p_gen = ParameterGenerator()
+    p_gen.add_parameter("SIZE", vals, "SIZE.%%")
+    if "TAG" in kwargs:
+        p_gen.add_parameter("TAG", [kwargs["TAG"]] * len(vals), "TAG.%%")
+    return p_gen
+"""
+STATE_NAMES = ["INITIALIZED", "PENDING", "WAITING", "RUNNING", "FINISHING", "FINISHED", "QUEUED", "FAILED",
+               "INCOMPLETE", "HWFAILURE", "TIMEDOUT", "UNKNOWN", "CANCELLED", "NOTFOUND", "DRYRUN"]
+
+
+def gen_cli(rng, k):
+    """one command line: a three-step study (sim per combination, post per
+    combination, a funnel), parameters from a custom generator (--pgen + a
+    --pargs list with repeated keys) or from global.parameters; dry run, or a
+    REAL run with the local adapter (commands that never mention a path; one
+    step may fail) under output roots with shell metacharacters."""
+    real = rng.random() < 0.5
+    pgen = rng.random() < (0.6 if not real else 0.4)
+    c = {"stream": "cli", "rlimit": 0, "params": [], "steps": [],
+         "cli": {"dry": not real, "pgen": pgen, "pargs": list(rng.choice(PARG_LISTS)) if pgen else [],
+                 "hashws": (not real) and rng.random() < 0.25,
+                 "fail": real and rng.random() < 0.4,
+                 "tag": pgen and rng.random() < 0.5}}
+    roots = CLI_ROOTS[1:]
+    off = rng.randrange(len(roots))
+    c["cli"]["roots"] = ["plain"] + [roots[(off + j) % len(roots)] for j in range(5)]
+    return c
+
+
+def cli_spec_text(case):
+    import yaml
+    o = case["cli"]
+    tag = " $(TAG)" if o.get("tag") and any(a.startswith("TAG:") for a in o["pargs"]) else ""
+    if o["dry"]:
+        sim = 'echo "simulate $(SIZE)%s" > $(WORKSPACE)/sim.out' % tag
+        post = "cat $(sim.workspace)/sim.out > post.out"
+        rep = "ls $(post.workspace) > report.txt"
+    else:                       # executed: nothing that depends on how a path is spelled
+        sim = 'echo "simulate $(SIZE)%s" > sim.out' % tag
+        post = ("exit 3" if o.get("fail") else "echo post $(SIZE) > post.out")
+        rep = "echo done > report.txt"
+    doc = {"description": {"name": "sweep", "description": "C11 command-line repeatability"},
+           "study": [{"name": "sim", "description": "one size", "run": {"cmd": sim}},
+                     {"name": "post", "description": "post-process one size", "run": {"cmd": post, "depends": ["sim"]}},
+                     {"name": "side", "description": "independent", "run": {"cmd": "echo side > side.out"}},
+                     {"name": "report", "description": "gather", "run": {"cmd": rep, "depends": ["post_*", "side"]}}]}
+    if not o["pgen"]:
+        doc["global.parameters"] = {"SIZE": {"values": [10, 20, 30], "label": "SIZE.%%"},
+                                    "ITER": {"values": [1, 2, 3], "label": "ITER.%%"}}
+        doc["study"][0]["run"]["cmd"] += " # $(ITER)"
+    return yaml.safe_dump(doc, sort_keys=False)
+
+
+def parse_status_rows(text):
+    """[name, workspace, state, params] per row; the writer does not quote and a
+    name / Params entry may contain commas: the row is cut at the state column"""
+    import re
+    pat = re.compile(r"^(.*?),([^,]*),([^,]*),(%s),[^,]*,[^,]*,[^,]*,[^,]*,[^,]*,[^,]*,(.*)$" % "|".join(STATE_NAMES))
+    rows = []
+    for ln in text.split("\n")[1:]:
+        m = pat.match(ln)
+        rows.append([m.group(1), m.group(3), m.group(4), m.group(5)] if m else [ln, "", "", ""])
+    return rows
+
+
+def cli_once(job):
+    """one `maestro run` child process; the expansion and the outcome as seen from outside"""
+    from harness import e2e
+    case, seed, variant, d = job
+    o = case["cli"]
+    os.makedirs(d, exist_ok=True)
+    spec = os.path.join(d, "spec.yaml")
+    with open(spec, "w") as f:
+        f.write(cli_spec_text(case))
+    root = os.path.join(d, variant, "st", "out")
+    os.makedirs(os.path.dirname(root), exist_ok=True)
+    argv = ["run", "-fg", "-y", "-s", "1", "--attempts", "1", "-o", root]
+    if o["dry"]:
+        argv.append("--dry")
+    if o.get("hashws"):
+        argv.append("--hashws")
+    if o["pgen"]:
+        pg = os.path.join(d, "pgen.py")
+        with open(pg, "w") as f:
+            f.write(PGEN_TEXT)
+        argv += ["--pgen", pg]
+        for a in o["pargs"]:
+            argv += ["--pargs", a]
+    argv.append(spec)
+    rc, out = e2e.launch("maestro", argv, d, {"PYTHONHASHSEED": seed, "E2E_POLL_SLEEP": "1", "E2E_MAX_POLLS": "60"},
+                         timeout=240)
+    ser = {"obs": {"ok": False, "err": 7}, "polls": [], "status": [], "scripts": [], "exc": "rc=%d" % rc}
+    try:
+        dirs, scripts = [], []
+        for dp, dn, fn in os.walk(root):
+            dn.sort()
+            rel = os.path.relpath(dp, root)
+            if rel != "." and rel.split(os.sep)[0] not in ("logs", "meta"):
+                dirs.append(rel)
+            for f in sorted(fn):
+                if f.endswith(".sh"):
+                    with open(os.path.join(dp, f), errors="replace") as h:
+                        scripts.append([os.path.join(rel, f), f, h.read(), ""])
+        ser["polls"] = [sorted(dirs)]
+        ser["scripts"] = sorted(scripts)
+        sp = os.path.join(root, "status.csv")
+        if os.path.exists(sp):
+            with open(sp, errors="replace") as h:
+                ser["status"] = parse_status_rows(h.read())
+        else:
+            ser["exc"] += " no-status.csv"
+    except Exception as e:
+        ser["exc"] += " OBS:%s" % type(e).__name__
+    if rc not in (0, 2, 3):
+        ser["exc"] += " | " + " ".join(out.replace(root, "/R").split())[-300:]
+    shutil.rmtree(os.path.join(d, variant), ignore_errors=True)
+    return replace_root(ser, root)
+
+
+def run_cli(cases, procs, tag):
+    """every CLI case in one child process per (hash seed, root); returns per case
+    the serialisations and the (seed, root) pairs used"""
+    from harness import e2e
+    work = os.path.join(common.WORK, "%s-%d" % (tag, os.getpid()))
+    shutil.rmtree(work, ignore_errors=True)
+    jobs, plist = [], []
+    for i, case in enumerate(cases):
+        roots = case["cli"].get("roots") or CLI_ROOTS
+        pp = [(s, roots[k % len(roots)]) for k, (s, _) in enumerate(procs)]
+        plist.append(pp)
+        for k, (s, v) in enumerate(pp):
+            jobs.append((case, s, v, os.path.join(work, "c%d" % i, "p%d" % k)))
+    res = e2e.pmap(cli_once, jobs)
+    out, n = [], 0
+    for pp in plist:
+        out.append(res[n:n + len(pp)])
+        n += len(pp)
+    shutil.rmtree(work, ignore_errors=True)
+    return out, plist
+
+
 def cross_only(case):
     """cases the Gallina model does not describe: processes against each other only"""
-    return bool(case.get("hashws")) or bool(case.get("real")) or bool(case.get("env")) \
+    return bool(case.get("hashws")) or bool(case.get("real")) or bool(case.get("env")) or bool(case.get("cli")) \
         or (case.get("adapter") or "local") != "local"
 
 
 def case_key(case):
-    return json.dumps({k: case.get(k) for k in ("rlimit", "params", "steps", "hashws", "usetmp", "adapter", "via", "real", "faults", "env")},
+    return json.dumps({k: case.get(k) for k in ("rlimit", "params", "steps", "hashws", "usetmp", "adapter", "via", "real", "faults", "env", "cli")},
                       sort_keys=True, default=str)
 
 
@@ -895,7 +1063,8 @@ def generate(rng, tier):
                 for st in c["steps"]:
                     if rng.random() < 0.7 and not st["run"].get("restart"):
                         st["run"]["restart"] = "echo again"
-    return cases + gen
+    n_cli = 14 if quick else 60
+    return cases + gen + [gen_cli(rng, k) for k in range(n_cli)]
 
 
 def _coq(ck, tag, fn, lits):
@@ -913,7 +1082,19 @@ def _coq(ck, tag, fn, lits):
 
 def evaluate(ck, cases, procs, tag="C11"):
     """-> (sers, verdicts, detail, problems, errs)"""
-    sers, problems = run_processes(cases, procs, "run-" + tag.lower())
+    lib = [i for i, c in enumerate(cases) if not c.get("cli")]
+    cli = [i for i, c in enumerate(cases) if c.get("cli")]
+    sers = [None] * len(cases)
+    procs_of = [procs] * len(cases)
+    problems = []
+    if lib:
+        s1, problems = run_processes([cases[i] for i in lib], procs, "run-" + tag.lower())
+        for i, s in zip(lib, s1):
+            sers[i] = s
+    if cli:
+        s2, pl = run_cli([cases[i] for i in cli], procs, "run-" + tag.lower() + "-cli")
+        for i, s, pp in zip(cli, s2, pl):
+            sers[i], procs_of[i] = s, pp
     verdicts = ["ok"] * len(cases)
     detail = {}
     lits, idx, hlits, hidx = [], [], [], []
@@ -945,13 +1126,15 @@ def evaluate(ck, cases, procs, tag="C11"):
             detail[hidx[j]] = {"monitor_false": True, "cross_process_only": True}
     # the Python-side comparison of the complete serialisations must tell the same story
     for i in idx + hidx:
-        d = cross_diff(sers[i], procs)
+        pr = procs_of[i]
+        d = cross_diff(sers[i], pr)
         if d is not None:
             k, where = d
             detail.setdefault(i, {})["diff"] = {
-                "process_a": {"hashseed": procs[0][0], "root_variant": procs[0][1]},
-                "process_b": {"hashseed": procs[k][0], "root_variant": procs[k][1]},
-                "same_hashseed": procs[0][0] == procs[k][0], "where": where}
+                "process_a": {"hashseed": pr[0][0], "root_variant": pr[0][1]},
+                "process_b": {"hashseed": pr[k][0], "root_variant": pr[k][1]},
+                "same_hashseed": pr[0][0] == pr[k][0], "where": where}
+            detail[i]["processes"] = [list(x) for x in pr]
             verdicts[i] = "violation"
     return sers, verdicts, detail, problems, errs
 
@@ -974,7 +1157,8 @@ def violation_what(det):
 
 
 def violation_record(case, procs, det):
-    return {"case": clean(case), "processes": [list(p) for p in procs], "diff": (det or {}).get("diff")}
+    return {"case": clean(case), "processes": (det or {}).get("processes") or [list(p) for p in procs],
+            "diff": (det or {}).get("diff")}
 
 
 def run(ck):
@@ -990,13 +1174,21 @@ def run(ck):
         x = ss[0] or {"obs": {"ok": False, "err": 9}, "polls": []}
         o = x["obs"]
         mp = max_parents(x)
-        ck.count(case_key(case), nontrivial=bool(o.get("ok")) and (mp >= 2 or max_params(x) >= 2))
+        ck.count(case_key(case), nontrivial=(bool(o.get("ok")) and (mp >= 2 or max_params(x) >= 2))
+                 or (bool(case.get("cli")) and len(x.get("status", [])) >= 3))
         hist["streams"][case["stream"]] = hist["streams"].get(case["stream"], 0) + 1
         fl = "hashws=%d,usetmp=%d,adapter=%s,via=%s,run=%s" % (
             bool(case.get("hashws")), bool(case.get("usetmp")), case.get("adapter") or "local",
             case.get("via") or "direct", ("real/" + str(case.get("faults"))) if case.get("real") else "dry")
         hist["flags"][fl] = hist["flags"].get(fl, 0) + 1
-        if o.get("ok"):
+        if case.get("cli"):
+            cl = case["cli"]
+            kk = "cli:%s,%s,pargs=%d%s%s" % ("dry" if cl["dry"] else "real-local", "pgen" if cl["pgen"] else "global.parameters",
+                                             len(cl["pargs"]), ",hashws" if cl.get("hashws") else "",
+                                             ",failing-step" if cl.get("fail") else "")
+            hist.setdefault("cli", {})[kk] = hist.setdefault("cli", {}).get(kk, 0) + 1
+            hist.setdefault("cli_exit", {})[x.get("exc", "")[:12]] = hist.setdefault("cli_exit", {}).get(x.get("exc", "")[:12], 0) + 1
+        elif o.get("ok"):
             b = min(len(o["nodes"]) - 1, 16)
             hist["nodes"][b] = hist["nodes"].get(b, 0) + 1
             hist["max_parents"][min(mp, 8)] = hist["max_parents"].get(min(mp, 8), 0) + 1
@@ -1036,7 +1228,13 @@ def run(ck):
                       "+ the 'env' stream (environments with chains / a diamond of 2-5 variables/labels referring to each "
                       "other, declared outermost first / innermost first / shuffled in the variables / labels blocks, used in "
                       "cmd and restart; the Expand model has no environment: compared across processes only); "
-                      "25%% of the generated cases are staged with hash_ws=True and 15%% with use_tmp=True; 35%% are staged and "
+                      "+ the 'cli' stream: REAL `maestro run -fg -y` child processes (only time.sleep stubbed) under the same "
+                      "hash seeds and output roots with blanks, parentheses, &, ;, $, quotes, *, ?, backslash, back-ticks: "
+                      "--pgen with --pargs lists holding repeated keys with different values, several keys, values with ':' "
+                      "and ',' (or global.parameters), --dry (expansion: directory tree, every script's text, status listing, "
+                      "exit code) or a real run with the LOCAL adapter (additionally the final step states; one step may fail), "
+                      "compared across processes only; "
+                      "25%% of the generated library cases are staged with hash_ws=True and 15%% with use_tmp=True; 35%% are staged and "
                       "polled by the Conductor (initialize + monitor_study, sleep stubbed; status.csv where the Conductor "
                       "writes it); 30%% are REAL runs against a scripted scheduler adapter registered in the plug-in registry "
                       "(every step scheduled, answers in the order queried; every job reported FINISHED one poll after "
